@@ -303,6 +303,9 @@ func checkStepStores(c *Ctx, sc stepConsts, rState, rIdx, rPair string, only map
 			if only != nil && !only[vt.Name] {
 				continue
 			}
+			if only != nil && only["__index_only__"] {
+				continue
+			}
 			fs := FactsAtInstr(st)
 			var ok bool
 			var need string
@@ -340,7 +343,7 @@ func checkStepStores(c *Ctx, sc stepConsts, rState, rIdx, rPair string, only map
 			c.Ob(rState, construct+vt.Name+")", st.Pos(), ok, "CurrentStepState = "+vt.Name, ifs(!ok, "gate missing: "+need)).WithFacts(fs).Req(need)
 		}
 		for _, st := range StoresToField(fn, func(fa *ssa.FieldAddr) bool { return TermOf(fa).Fld == idxFld }) {
-			if only != nil {
+			if only != nil && !only["__index_only__"] {
 				break
 			}
 			vt := TermOf(st.Val)
